@@ -93,7 +93,7 @@ ADV = ["and", "AT", "at", "Move", "move", "MOVE", "1st", "2", "a-b", "a b", "a.b
 
 class PddlGen:
     def __init__(self, rng, adversarial=False, numeric=True, hierarchy=None, quantifiers=True, metrics=True,
-                 reals="finite", traj=False, undefined_numeric=False, bounded=False, nonempty=True):
+                 reals="finite", traj=False, undefined_numeric=False, bounded=False, nonempty=True, nonneg=False):
         self.rng = rng
         r = rng
         self.adv = adversarial
@@ -103,6 +103,7 @@ class PddlGen:
         self.reals = reals
         self.traj = traj
         self.undefined_numeric = undefined_numeric
+        self.nonneg = nonneg
         self.used = set()
         hier = r.random() < 0.6 if hierarchy is None else hierarchy
         # ---- types
@@ -200,12 +201,16 @@ class PddlGen:
         return ["fl", ref] + args
 
     def const_int(self):
+        if self.nonneg:
+            return ["i", str(self.rng.choice([0, 1, 1, 2, 3, 5, 7, 12, 100]))]
         return ["i", str(self.rng.choice([0, 1, 1, 2, 3, 5, -1, -4, 7, 12, 100]))]
 
     def const_real(self):
         r = self.rng
         if self.reals == "any" and r.random() < 0.3:
             return ["r", r.choice(["1/3", "2/7", "12345678901/100", "1/1024", "-22/7", "123456789/1000000000000"])]
+        if self.nonneg:
+            return ["r", r.choice(["1/2", "3/2", "5/2", "1/4", "1/8", "1/10", "3/100", "1/100000", "25/2", "123456789/100"])]
         return ["r", r.choice(["1/2", "3/2", "5/2", "-1/2", "1/4", "1/8", "1/10", "3/100", "1/100000", "1/10000000",
                                "25/2", "123456789/100", "-7/4"])]
 
@@ -236,7 +241,7 @@ class PddlGen:
             n = r.choice([2, 2, 3])
             return ["times"] + [sub() for _ in range(n)]
         if real_ok:
-            d = r.choice([["i", "2"], ["i", "4"], ["i", "-5"], ["r", "1/2"], ["i", "3"]])
+            d = r.choice([["i", "2"], ["i", "4"], ["i", "5" if self.nonneg else "-5"], ["r", "1/2"], ["i", "8"]])
             return ["div", sub(), d]
         return sub()
 
@@ -363,10 +368,10 @@ class PddlGen:
         if ty == "bool":
             return ["b", r.choice(["T", "F"])]
         if ty[0] == "int":
-            lo = int(ty[1]) if ty[1] != "_" else -1
+            lo = int(ty[1]) if ty[1] != "_" else (0 if self.nonneg else -1)
             hi = int(ty[2]) if ty[2] != "_" else 3
             return ["i", str(r.randint(lo, hi))]
-        lo = Fraction(ty[1]) if ty[1] != "_" else Fraction(-1)
+        lo = Fraction(ty[1]) if ty[1] != "_" else Fraction(0 if self.nonneg else -1)
         hi = Fraction(ty[2]) if ty[2] != "_" else Fraction(3)
         q = lo + (hi - lo) * Fraction(r.randint(0, 4), 4)
         return ["i", str(q.numerator)] if q.denominator == 1 else ["r", q2s(q)]
@@ -440,6 +445,17 @@ def has_dup_operands(e):
     return any(has_dup_operands(a) for a in e.args)
 
 
+def has_nonfinite_constant(e):
+    """a rational constant without finite decimal expansion (outside the property's quantifier unless reals='any')"""
+    if e.is_real_constant():
+        d = e.constant_value().denominator
+        for p in (2, 5):
+            while d % p == 0:
+                d //= p
+        return d != 1
+    return any(has_nonfinite_constant(a) for a in e.args)
+
+
 def all_expressions(P):
     for a in P.actions:
         for c in a.preconditions:
@@ -459,7 +475,7 @@ def all_expressions(P):
             yield "metric", m.expression
 
 
-def outside_fragment(P):
+def outside_fragment(P, allow_nonfinite=False):
     """reading decisions that keep the generated problems inside the property's fragment (see ASSUMPTIONS of C18);
     returns the name of the excluded feature or None"""
     from unified_planning.model import InstantaneousAction
@@ -471,6 +487,8 @@ def outside_fragment(P):
             return "metric-constant"
         if has_dup_operands(s) or has_dup_operands(e):
             return "dup-operands"
+        if not allow_nonfinite and (has_nonfinite_constant(s) or has_nonfinite_constant(e)):
+            return "non-finite-decimal"
     for a in P.actions:
         # effects that become unconditional once their condition is simplified must not be statically conflicting
         # (the library rejects such actions when they are rebuilt by a reader, in whatever order)
@@ -499,7 +517,7 @@ def gen_problem(rng, tries=60, **kw):
         except Exception as e:      # conflicting effects, bounds, ... : structurally rejected by the library
             last = e
             continue
-        why = outside_fragment(P)
+        why = outside_fragment(P, allow_nonfinite=kw.get("reals") == "any")
         if why is None:
             return ps, P, ctx
         last = why
@@ -667,9 +685,10 @@ def behav_diff(P, Q, rename_t, rename_f, rename_o, rename_a, depth, width=6, che
             for s in succ:
                 if len(s[2]) > len(best_plan):
                     best_plan = s[2]
-        if len(nxt) > 40:
-            step = len(nxt) / 40
-            nxt = [nxt[int(i * step)] for i in range(40)]
+        cap = 3 * width
+        if len(nxt) > cap:
+            step = len(nxt) / cap
+            nxt = [nxt[int(i * step)] for i in range(cap)]
         frontier = nxt
     return None, best_plan
 
@@ -692,6 +711,33 @@ def is_external_parser_error(e):
     return "/site-packages/pddl/" in last or "/site-packages/lark/" in last
 
 
+_READERS = {}
+
+
+def reader(which):
+    """one PDDLReader per mode, reused (a reader object may parse any number of problems)"""
+    from unified_planning.io import PDDLReader
+    if which not in _READERS:
+        kw = {"up": {"force_up_pddl_reader": True}, "default": {"disable_warnings": True},
+              "ai": {"force_ai_planning_reader": True}}[which]
+        _READERS[which] = PDDLReader(**kw)
+    return _READERS[which]
+
+
+_PARSED = {}
+
+
+def up_read_cached(domain, problem):
+    """UP reader on a text, memoised over the last few texts (impl() and oracle() of one case parse the same text; one
+    pyparsing pass costs ~0.3 s)"""
+    key = (domain, problem)
+    if key not in _PARSED:
+        if len(_PARSED) > 6:
+            _PARSED.clear()
+        _PARSED[key] = reader("up").parse_problem_string(domain, problem)
+    return _PARSED[key]
+
+
 def read_back(domain, problem, which):
     """which: 'up' | 'ai' | 'default'.  Returns (Problem, None) or (None, 'skip'|error string).
     For 'ai' the two steps of PDDLReader(force_ai_planning_reader=True) are run separately, so that a text the external
@@ -711,9 +757,10 @@ def read_back(domain, problem, which):
             return convert_problem_from_ai_pddl(ai_domain, ai_problem), None
         except Exception as e:
             return None, f"{type(e).__name__}: {str(e)[:160]}"
-    kw = {"up": {"force_up_pddl_reader": True}, "default": {"disable_warnings": True}}[which]
     try:
-        return PDDLReader(**kw).parse_problem_string(domain, problem), None
+        if which == "up":
+            return up_read_cached(domain, problem), None
+        return reader(which).parse_problem_string(domain, problem), None
     except Exception as e:
         return None, f"{type(e).__name__}: {str(e)[:160]}"
 
@@ -733,7 +780,7 @@ def validate(P, plan):
         return "err:" + type(e).__name__
 
 
-def roundtrip_check(P, depth, readers=("up", "default", "ai"), writer_kw=None, pick=0):
+def roundtrip_check(P, depth, readers=("up", "default"), writer_kw=None, pick=0, width=4):
     """The C18 statement on one real problem.  Returns (None | failing clause, info dict)."""
     from unified_planning.io import PDDLWriter, PDDLReader
     info = {}
@@ -758,7 +805,7 @@ def roundtrip_check(P, depth, readers=("up", "default", "ai"), writer_kw=None, p
             continue
         if err:
             return f"[{which}] reader raised {err}", info
-        why, steps = behav_diff(P, Q, ren(P.user_type), ren(P.fluent), ren(P.object), ren(P.action), depth)
+        why, steps = behav_diff(P, Q, ren(P.user_type), ren(P.fluent), ren(P.object), ren(P.action), depth, width=width)
         if why:
             return f"[{which}] {why}", info
         info[which] = "ok"
@@ -774,13 +821,13 @@ def roundtrip_check(P, depth, readers=("up", "default", "ai"), writer_kw=None, p
             plan = seq_plan(P, st)
             try:
                 text = w.get_plan(plan)
-                back = PDDLReader(environment=P.environment).parse_plan_string(P, text, w.get_item_named)
+                back = reader("up").parse_plan_string(P, text, w.get_item_named)
             except Exception as e:
                 return f"[{which}] plan round trip raised {type(e).__name__}: {str(e)[:100]}", info
             if back != plan:
                 return f"[{which}] plan parsed back differs: {back} vs {plan}", info
             try:
-                qplan = PDDLReader(environment=Q.environment).parse_plan_string(Q, text)
+                qplan = reader("up").parse_plan_string(Q, text)
             except Exception as e:
                 # an action the writer dropped (unsatisfiable precondition) cannot be named in Q: the plan is invalid in P
                 if validate(P, plan) == "INVALID" and any(not Q.has_action(ren(P.action)(a.name)) for a, _ in st):
@@ -1006,6 +1053,7 @@ class Variants:
     def __init__(self, rng, p=0.3):
         self.rng, self.p = rng, p
         self.tags = set()
+        self.all_untyped = rng.random() < 0.1     # the classic untyped form: no :types, every list untyped
 
     def hit(self, tag, p=None):
         if self.rng.random() < (self.p if p is None else p):
@@ -1015,6 +1063,9 @@ class Variants:
 
     def typed(self, flat, allow_untyped=False):
         gs = _groups(flat)
+        if self.all_untyped:
+            self.tags.add("all-untyped")
+            return [n for ns, t in gs for n in ns]
         # merge neighbours of one type
         merged = []
         for ns, t in gs:
@@ -1035,7 +1086,8 @@ class Variants:
 
     def expr(self, e):
         if isinstance(e, str):
-            if e and e[0] == "-" and len(e) > 1 and e[1].isdigit() and self.hit("unary-minus", 0.3):
+            if e and e[0] == "-" and len(e) > 1 and e[1].isdigit() and not getattr(self, "in_init", False) \
+                    and self.hit("unary-minus", 0.3):
                 return ["-", e[1:]]
             return self.case(e)
         if not e:
@@ -1085,7 +1137,7 @@ class Variants:
         while i < len(body):
             k = body[i]
             if k == ":parameters":
-                out += [k, self.typed(body[i + 1], allow_untyped=True)]
+                out += [k, self.typed(body[i + 1])]
                 i += 2
             elif k == ":precondition":
                 out += [k, self.expr(body[i + 1])]
@@ -1117,12 +1169,17 @@ class Variants:
                         else:
                             keep.append(([n], t))
                 q[j] = [":objects"] + self.typed(_flat(keep))
+                if self.all_untyped and not keep:
+                    q[j] = None
+        q = [x for x in q if x is not None]
         seen_consts = False
         for sec in dom:
             if not isinstance(sec, list) or not sec:
                 d.append(sec)
                 continue
             h = sec[0]
+            if h == ":types" and self.all_untyped:
+                continue
             if h == ":types":
                 gs = _groups(sec[1:])
                 if len(gs) > 1 and self.hit("types-reordered"):
@@ -1157,7 +1214,9 @@ class Variants:
         out = []
         for sec in q:
             if isinstance(sec, list) and sec and sec[0] == ":init":
+                self.in_init = True      # initial values must stay constants
                 items = [self.expr(x) for x in sec[1:]]
+                self.in_init = False
                 atoms = [x for x in items if isinstance(x, list) and x and x[0] not in ("=", "at")]
                 if atoms and self.hit("negative-init-literal", 0.15):
                     items.insert(self.rng.randrange(len(items) + 1), ["not", self.rng.choice(atoms)])
@@ -1177,8 +1236,9 @@ def render_text(rng, tree):
         if isinstance(t, str):
             return t
         parts = [go(x, depth + 1) for x in t]
-        sep = "\n" + " " * depth if depth <= 1 else " "
-        s = "(" + sep.join(parts) + ")"
+        if depth == 0:
+            return "(" + "\n ".join(parts) + "\n)"
+        s = "(" + (" " if depth > 1 or rng.random() < 0.5 else "\n   ").join(parts) + ")"
         if depth == 1 and rng.random() < 0.1:
             s += " ; a comment (with parentheses"
         return s
